@@ -1,6 +1,7 @@
 mod codec;
 mod effects;
 mod expr;
+mod kem;
 mod treemath;
 mod window;
 
@@ -15,6 +16,7 @@ fn main() {
         "codec" => codec::run(&a[2], &a[3]),
         "effects" => effects::run(&a[2], &a[3]),
         "window" => window::run(&a[2], &a[3]),
+        "kem" => kem::run(&a[2], &a[3]),
         _ => std::process::exit(2),
     }
 }
